@@ -203,6 +203,9 @@ func cmdVerify(args []string) {
 	}
 	fmt.Printf("total %d obligations, %d problems, %.1fs\n", len(jobs), bad, time.Since(t0).Seconds())
 	if bad > 0 {
+		if !keep {
+			os.RemoveAll(work) // deferred calls do not run on os.Exit
+		}
 		os.Exit(1)
 	}
 }
